@@ -253,3 +253,133 @@ impl<const CAP: usize> octseq::builder::Truncate for FixedBuf<CAP> {
         }
     }
 }
+
+// ------------------------------------------------------------------ names
+
+/// RFC 4343 lower-casing: only 'A'..='Z' are touched.
+pub fn lc(b: u8) -> u8 {
+    if b >= 0x41 && b <= 0x5A { b + 0x20 } else { b }
+}
+
+use core::cmp::Ordering;
+
+/// Lexicographic order of two octet strings after mapping through `f`
+/// ("absence of an octet sorts before a zero octet").
+pub fn lex_cmp(a: &[u8], b: &[u8], lower: bool) -> Ordering {
+    let mut i = 0;
+    loop {
+        if i >= a.len() && i >= b.len() {
+            return Ordering::Equal;
+        }
+        if i >= a.len() {
+            return Ordering::Less;
+        }
+        if i >= b.len() {
+            return Ordering::Greater;
+        }
+        let (x, y) = if lower { (lc(a[i]), lc(b[i])) } else { (a[i], b[i]) };
+        if x < y {
+            return Ordering::Less;
+        }
+        if x > y {
+            return Ordering::Greater;
+        }
+        i += 1;
+    }
+}
+
+/// A `Hasher` that records the octet stream it is fed.
+pub struct RecHasher<const N: usize> {
+    pub buf: [u8; N],
+    pub len: usize,
+    pub overflow: bool,
+}
+
+impl<const N: usize> RecHasher<N> {
+    pub fn new() -> Self {
+        RecHasher { buf: [0; N], len: 0, overflow: false }
+    }
+    pub fn same(&self, other: &Self) -> bool {
+        if self.len != other.len || self.overflow || other.overflow {
+            return false;
+        }
+        let mut i = 0;
+        while i < self.len {
+            if self.buf[i] != other.buf[i] {
+                return false;
+            }
+            i += 1;
+        }
+        true
+    }
+}
+
+impl<const N: usize> core::hash::Hasher for RecHasher<N> {
+    fn finish(&self) -> u64 {
+        0
+    }
+    fn write(&mut self, bytes: &[u8]) {
+        let mut i = 0;
+        while i < bytes.len() {
+            if self.len < N {
+                self.buf[self.len] = bytes[i];
+                self.len += 1;
+            } else {
+                self.overflow = true;
+            }
+            i += 1;
+        }
+    }
+    fn write_u8(&mut self, b: u8) {
+        if self.len < N {
+            self.buf[self.len] = b;
+            self.len += 1;
+        } else {
+            self.overflow = true;
+        }
+    }
+}
+
+/// Is wire[..n] a valid uncompressed absolute name (RFC 1035 3.1)?
+pub fn valid_absolute(wire: &[u8]) -> bool {
+    let n = wire.len();
+    if n == 0 || n > 255 {
+        return false;
+    }
+    let mut pos = 0;
+    loop {
+        if pos >= n {
+            return false;
+        }
+        let l = wire[pos] as usize;
+        if l > 63 {
+            return false;
+        }
+        if l == 0 {
+            return pos + 1 == n;
+        }
+        pos += l + 1;
+    }
+}
+
+/// Is wire[..n] a valid relative name (no root label, <= 254 octets)?
+pub fn valid_relative(wire: &[u8]) -> bool {
+    let n = wire.len();
+    if n > 254 {
+        return false;
+    }
+    let mut pos = 0;
+    loop {
+        if pos == n {
+            return true;
+        }
+        if pos > n {
+            return false;
+        }
+        let l = wire[pos] as usize;
+        if l > 63 || l == 0 {
+            return false;
+        }
+        pos += l + 1;
+    }
+}
